@@ -163,7 +163,13 @@ def js_scalar(rng):
 def g_js_parse(rng):
     ops = ["js new %d" % rng.choice([0, 1024, 1500, 3000])]
     for slot in range(1, 2 + rng.below(4)):
-        v = js_value(rng, 3) if rng.chance(4, 5) else [js_value(rng, 1) for _ in range(11 + rng.below(30))]
+        r = rng.below(10)
+        if r < 7:
+            v = js_value(rng, 3)
+        elif r < 9:
+            v = [js_value(rng, 1) for _ in range(11 + rng.below(30))]
+        else:           # long list: the index array of json_list_get_value needs a pool segment of its own
+            v = [rng.below(100) for _ in range(100 + rng.below(300))]
         t = js_text(rng, v)
         r = rng.below(20)
         if r == 0 and len(t) > 2:
@@ -177,7 +183,23 @@ def g_js_parse(rng):
     return ops + ["js free"]
 
 
+def g_js_storm(rng):
+    """one dict, many small distinct keys: every new pool segment is requested by one of the three
+    allocations of a json_dict_put_* (value, key string, tree node)"""
+    ops = ["js new %d" % rng.choice([0, 1024, 1500, 3000]), "js dict 1"]
+    n = 30 + rng.below(60)
+    keys = ["k%d" % i for i in range(n)]
+    for i in range(n):
+        k = keys.pop(rng.below(len(keys)))
+        ops.append("js dput 1 %s %s" % (H(k.encode()), rng.choice(["int %d" % rng.below(100), "null 0", "bool 1"])))
+        if rng.chance(1, 15):
+            ops.append("js dget 1 %s" % H(k.encode()))
+    return ops + ["js render 1", "js free"]
+
+
 def g_js_build(rng, parse_too=False):
+    if rng.chance(1, 3):
+        return g_js_storm(rng)
     ops = ["js new %d" % rng.choice([0, 1024, 1500, 3000])]
     kinds = {}          # slot -> "list" | "dict"
     keys = {}           # slot -> keys used (fault-free view)
